@@ -52,6 +52,11 @@ def run(run, only=None):
                 jobs.append(("props.c16_xh", "h_script", 600.0, {"first": k, "second": k2, "len": 3, "reduced": False,
                                                                  "name": "script/%s,%s+3" % (nm, nm2)}))
 
+    step_jobs = []
+    if not only or "state-step" in only:
+        for k, nm in enumerate(c16_xh.S_CMDS):
+            step_jobs.append(("props.c16_xh", "h_state_step", 300.0, {"cmd": k, "name": "state-step/%s" % nm}))
+
     def describe(p, r):
         cmds = c16_xh.S_CMDS if "solver" in p["name"] else c16_xh.P_CMDS
         rest = ((c16_xh.S_REDUCED if p.get("reduced") else cmds) + ["end"]) if "solver" in p["name"] else \
@@ -69,4 +74,16 @@ def run(run, only=None):
         return "stack/%s/%s" % ("solver" if "solver" in p["name"] else "script", ",".join(seq))
     run_xh_family(run, "xh-history", jobs, describe, sig, "xh")
     twin_check(run, "xh-history", jobs[::7])
+    if step_jobs:
+        run_xh_family(run, "xh-state-step", step_jobs,
+                      lambda p, r: "from the tracker state (frame sizes, depth, stale points, pending pop) = %r the command %s breaks the "
+                                   "representation invariant / the reported assertions" % (r["args"], p["name"].split("/")[1]),
+                      lambda p, a: "stack/state-step/%s" % p["name"].split("/")[1], "xh")
+        twin_check(run, "xh-state-step", step_jobs[::5])
+        run.bounds["state step"] = ("inductive step: every tracker state with <= 3 frames of <= 2 assertions, <= 2 stale backtrack points left "
+                                    "by a reset, with or without a pending one-shot pop (reached through a canonical history) x every command "
+                                    "of %s: the post-state satisfies the same representation invariant w.r.t. the reference frames and "
+                                    "reports their assertions - covers histories of ANY length whose states stay inside the bound" % c16_xh.S_CMDS)
+        run.assumptions.append("the tracker's behaviour depends only on (_assertion_stack, live suffix of _backtrack_points, pending_pop, back-end "
+                               "frames): the state abstraction of the inductive step")
     run.extra["states"] = len(jobs) * (15 ** n)
